@@ -170,7 +170,15 @@ def setup():
     hits = forbidden_tokens()
     if hits:
         raise SystemExit("forbidden tokens: %s" % hits)
-    log("setup ok in %.1fs" % (time.time() - t0))
+    # compile every property file on its own once and keep the captured Print Assumptions output (see check_theorems)
+    from concurrent.futures import ThreadPoolExecutor
+    pids = sorted(f[:-2] for f in os.listdir(os.path.join(COQ, "Properties")) if f.endswith(".v"))
+    with ThreadPoolExecutor(max_workers=NCPU) as ex:
+        res = list(ex.map(check_theorems, pids))
+    bad = [r["file"] for r in res if not r["compiled"]]
+    if bad:
+        raise SystemExit("property files do not compile: %s" % bad)
+    log("setup ok in %.1fs (%d property files, %d theorems)" % (time.time() - t0, len(res), sum(len(r["theorems"]) for r in res)))
 
 
 # ----------------------------------------------------------------------------- proofs
@@ -180,7 +188,22 @@ def check_theorems(pid):
     path = os.path.join(COQ, "Properties", pid + ".v")
     src = open(path, encoding="utf-8").read()
     names = re.findall(r"^\s*Theorem\s+(\w+)", src, re.M)
-    r = run(["timeout", "1200", "coqc", "-Q", COQ, "Klog", path], cwd=COQ)
+    # Print Assumptions walks the whole dependency cone of every theorem (1-2 minutes for the larger files), and its
+    # output can only change when a Coq source changes: the captured output is cached under the hash of all .v files
+    key = hashlib.sha1()
+    for f in coq_sources():
+        key.update(f.encode()); key.update(open(f, "rb").read())
+    cache = os.path.join(BUILD, "assumptions", "%s-%s.json" % (pid, key.hexdigest()[:16]))
+    if os.path.exists(cache):
+        c = json.load(open(cache))
+        r = subprocess.CompletedProcess([], c["returncode"], c["stdout"])
+    else:
+        r = run(["timeout", "1200", "coqc", "-Q", COQ, "Klog", path], cwd=COQ)
+        os.makedirs(os.path.dirname(cache), exist_ok=True)
+        for old_f in os.listdir(os.path.dirname(cache)):
+            if old_f.startswith(pid + "-"):
+                os.remove(os.path.join(os.path.dirname(cache), old_f))
+        json.dump({"returncode": r.returncode, "stdout": r.stdout}, open(cache, "w"))
     closed = r.stdout.count("Closed under the global context")
     axioms = []
     for m in re.finditer(r"^Axioms:\n((?:.+\n)+?)(?=\S|\Z)", r.stdout, re.M):
